@@ -58,3 +58,54 @@ def build(key, variant, i):
     old['self'] = type('Snap', (), {k: getattr(r, k) for k in ('pos', 'offset', 'size', 'buffersize', 'max_buffers', 'num_buffers')})()
     old['self'].buffers = dict(r.buffers)
     return {'env': env, 'old_env': old, 'call': call}
+
+
+def search(key, variant, i):
+    """Refutation aid: short random operation sequences on small windows, compared with an in-memory stream over
+    the window (the statement of C20).  Deterministic (seeded); returns the first failing scenario or None."""
+    import random
+    rnd = random.Random(20)
+    for trial in range(3000):
+        Len = rnd.randint(1, 60)
+        off = rnd.randint(0, Len)
+        size = rnd.randint(0, Len - off)
+        bs = rnd.randint(1, 9)
+        mb = rnd.randint(1, 4)
+        F = bytes((7 * k + 3) % 251 for k in range(Len))
+        r = BufferedReader(io.BytesIO(F), buffersize=bs, offset=off, size=size, max_buffers=mb)
+        ref = io.BytesIO(F[off:off + size])
+        ops = []
+        for _ in range(rnd.randint(1, 8)):
+            kind = rnd.choice(['read', 'read', 'readall', 'seek', 'peek', 'tell'])
+            try:
+                if kind == 'read':
+                    n = rnd.randint(0, size + 2)
+                    ops.append(f'read({n})')
+                    got, want = r.read(n), ref.read(n)
+                elif kind == 'readall':
+                    ops.append('read()')
+                    got, want = r.read(), ref.read()
+                elif kind == 'seek':
+                    wh = rnd.choice([0, 0, 1, 2])
+                    t = rnd.randint(-size - 2, size + 2) if wh else rnd.randint(0, size + 2)
+                    ops.append(f'seek({t},{wh})')
+                    got = r.seek(t, wh)
+                    want = max(0, min(size, [t, ref.tell() + t, size + t][wh]))
+                    ref.seek(want)
+                elif kind == 'peek':
+                    n = rnd.randint(1, size + 2)
+                    ops.append(f'peek({n})')
+                    got = r.peek(n)
+                    k = max(0, min(n, size - ref.tell()))
+                    want = F[off + ref.tell(): off + ref.tell() + k]
+                    got = bytes(got[:k]) if isinstance(got, (bytes, bytearray)) else got
+                else:
+                    ops.append('tell()')
+                    got, want = r.tell(), ref.tell()
+            except Exception as err:
+                return {'file_len': Len, 'offset': off, 'size': size, 'buffersize': bs, 'max_buffers': mb, 'ops': ops,
+                        'observed': repr(err)}
+            if got != want or r.tell() != ref.tell():
+                return {'file_len': Len, 'offset': off, 'size': size, 'buffersize': bs, 'max_buffers': mb, 'ops': ops,
+                        'observed': repr(got)[:80], 'expected': repr(want)[:80], 'pos': r.tell(), 'expected_pos': ref.tell()}
+    return None
